@@ -11,7 +11,8 @@
 //!   i:TO:FROM:TY:pat[:re]   import_from / import_from_with_reexport; TY in AR,AT,R,T,A;
 //!                      re = `+p^q` (transitive) | `-p^q` (not transitive); absent = import_from
 //!   a leading token `G` runs the remaining ops (c/x/i with AR|AT and pattern `*` only) through a
-//!   generated GRL text with `defmodule` blocks instead of the direct API (one block per `c`).
+//!   generated GRL text with `defmodule` blocks instead of the direct API (one block per `c`); trailing `r:M:rule` ops
+//!   become `;; MODULE: M` + a rule in the text (the parser assigns the rule to that module).
 //! obs  := step;step;...   step := res/snapshot   (see `snapshot`)
 use rre_harness::*;
 use rust_rule_engine::engine::module::*;
@@ -216,7 +217,7 @@ fn tri(r: rust_rule_engine::errors::Result<bool>) -> char {
 }
 
 /// g[!key>t1,t2]*  /  name!exists!rules!templates!exports!imports!vis!tvis!listing  / ...
-fn snapshot(m: &ModuleManager, ms: &[String], rs: &[String], ts: &[String]) -> String {
+fn snapshot(m: &ModuleManager, ms: &[String], rs: &[String], ts: &[String], with_extra: bool) -> String {
     let mut g: Vec<(String, Vec<String>)> = m
         .get_import_graph()
         .iter()
@@ -262,6 +263,111 @@ fn snapshot(m: &ModuleManager, ms: &[String], rs: &[String], ts: &[String]) -> S
             Err(_) => out.push_str(&format!("/{}!0!-!-!-!-!{}!{}!{}", name, vis, tvis, listing)),
         }
     }
+    if with_extra {
+        out.push('#');
+        out.push_str(&extra(m, ms));
+    }
+    out
+}
+
+fn show_validation(v: &ModuleValidation) -> String {
+    let unused = v.warnings.iter().filter(|w| w.starts_with("Import from")).count();
+    let reexp = v.warnings.iter().filter(|w| w.starts_with("Re-export pattern")).count();
+    let empty = v.warnings.iter().filter(|w| w.starts_with("Module is empty")).count();
+    if unused + reexp + empty != v.warnings.len() || empty > 1 {
+        return format!("?{}", hex(&v.warnings.join("|")));
+    }
+    if v.is_valid && v.errors.is_empty() && unused < 10 && reexp < 10 {
+        return format!("{}{}{}", unused, reexp, empty); // the short form: valid, no errors
+    }
+    format!("{}.{}.{}.{}.{}", if v.is_valid { 1 } else { 0 }, v.errors.len(), unused, reexp, empty)
+}
+
+/// the remaining queries that read the module set / the import relation (reach audit):
+/// extra := mods[!<dbg><stats><vall>[!other!total]](/[deps!val])*      (one `/deps!val` block per module name of the case, in order)
+///   mods  = list_modules() as one 0/1 digit per module name of the case; `other` = listed names that are not names of the case
+///   deps  = get_transitive_dependencies(name) sorted (`E` = Err);
+///   val   = validate_module(name): `<#unused-import warnings><#re-export warnings><empty>` when is_valid and no errors,
+///           else is_valid.#errors.#unused.#reexport.empty (`E` = Err)
+///   dbg   = `=` iff get_import_graph_debug() shows the relation get_import_graph() shows
+///   stats = `=` iff get_stats() shows list_modules() and, per module, the counts / export type get_module() shows
+///   vall  = `=` iff validate_all_modules() has exactly the existing modules, each with its validate_module() answer
+fn extra(m: &ModuleManager, ms: &[String]) -> String {
+    let mut mods = m.list_modules();
+    mods.sort();
+    // twin: get_import_graph_debug
+    let canon = |mut g: Vec<(String, Vec<String>)>| {
+        for e in g.iter_mut() {
+            e.1.sort();
+        }
+        g.sort();
+        g
+    };
+    let g1 = canon(m.get_import_graph().iter().map(|(k, v)| (k.clone(), v.iter().cloned().collect())).collect());
+    let g2 = canon(m.get_import_graph_debug());
+    let dbg = if g1 == g2 { "=" } else { "X" };
+    // twin: get_stats
+    let st = m.get_stats();
+    let mut st_names: Vec<String> = st.modules.keys().cloned().collect();
+    st_names.sort();
+    let mut stats_ok = st.total_modules == mods.len() && st_names == mods && m.get_module(&st.current_focus).is_ok();
+    for (name, info) in &st.modules {
+        match m.get_module(name) {
+            Ok(md) => {
+                let et = match md.get_exports() {
+                    ExportList::All => "All".to_string(),
+                    ExportList::None => "None".to_string(),
+                    ExportList::Specific(items) => format!("Specific({})", items.len()),
+                };
+                stats_ok = stats_ok
+                    && info.name == *name
+                    && info.rules_count == md.get_rules().len()
+                    && info.templates_count == md.get_templates().len()
+                    && info.imports_count == md.get_imports().len()
+                    && info.exports_type == et
+                    && m.get_module_salience(name).ok() == Some(info.salience);
+            }
+            Err(_) => stats_ok = false,
+        }
+    }
+    // twin: validate_all_modules
+    let all = m.validate_all_modules();
+    let mut all_names: Vec<String> = all.keys().cloned().collect();
+    all_names.sort();
+    let mut vall_ok = all_names == mods;
+    for (name, v) in &all {
+        match m.validate_module(name) {
+            Ok(w) => vall_ok = vall_ok && v.module_name == *name && show_validation(v) == show_validation(&w),
+            Err(_) => vall_ok = false,
+        }
+    }
+    let bits: String = ms.iter().map(|n| if mods.contains(n) { '1' } else { '0' }).collect();
+    let other: Vec<String> = mods.iter().filter(|n| !ms.contains(n)).cloned().collect();
+    // the flags are omitted when all three twins agree
+    let flags = format!("{}{}{}", dbg, if stats_ok { "=" } else { "X" }, if vall_ok { "=" } else { "X" });
+    let mut out = if flags == "===" && other.is_empty() && mods.len() == bits.matches('1').count() { bits.clone() } else { format!("{}!{}", bits, flags) };
+    if !other.is_empty() || mods.len() != bits.matches('1').count() + other.len() {
+        out.push_str(&format!("!{}!{}", list_or_dash(&other), mods.len()));
+    }
+    for name in ms {
+        let deps = match m.get_transitive_dependencies(name) {
+            Ok(mut v) => {
+                v.sort();
+                list_or_dash(&v)
+            }
+            Err(_) => "E".into(),
+        };
+        let val = match m.validate_module(name) {
+            Ok(v) => show_validation(&v),
+            Err(_) => "E".into(),
+        };
+        // an empty block = no dependencies and `Err` from validate_module (the usual answer for a module that does not exist)
+        if deps == "-" && val == "E" {
+            out.push('/');
+        } else {
+            out.push_str(&format!("/{}!{}", deps, val));
+        }
+    }
     out
 }
 
@@ -285,8 +391,20 @@ fn apply(m: &mut ModuleManager, op: &Op) -> &'static str {
 /// imports addressed to that module that follow it (before the next create).
 fn grl_text(ops: &[Op]) -> Option<String> {
     let mut blocks: Vec<(String, Option<String>, Vec<String>)> = Vec::new();
+    // rule assignment through the text: `;; MODULE: M` comment + a rule (only after the last block, distinct rule names:
+    // the parser registers every module first and resolves a rule's module from the FIRST occurrence of its name)
+    let mut rules: Vec<(String, String)> = Vec::new();
     for op in ops {
+        if !rules.is_empty() && !matches!(op, Op::Rule(..)) {
+            return None;
+        }
         match op {
+            Op::Rule(m, r) => {
+                if rules.iter().any(|x| &x.1 == r) {
+                    return None;
+                }
+                rules.push((m.clone(), r.clone()));
+            }
             Op::Create(n) => blocks.push((n.clone(), None, vec![])),
             Op::Export(n, e) => {
                 let b = blocks.last_mut()?;
@@ -326,6 +444,9 @@ fn grl_text(ops: &[Op]) -> Option<String> {
         }
         s.push_str("}\n");
     }
+    for (m, r) in rules {
+        s.push_str(&format!(";; MODULE: {} - rules of {}\nrule \"{}\" salience 1 {{ when X == 1 then Y = 1; }}\n", m, m, r));
+    }
     Some(s)
 }
 
@@ -336,7 +457,7 @@ fn exec(case: &str) -> String {
         // only the final state is observable through the parser; a refused import aborts the parse
         let Some(text) = grl_text(&ops) else { return "bad-case".into() };
         return match GRLParser::parse_with_modules(&text) {
-            Ok(p) => format!("ok/{}", snapshot(&p.module_manager, &ms, &rs, &ts)),
+            Ok(p) => format!("ok/{}", snapshot(&p.module_manager, &ms, &rs, &ts, true)),
             Err(e) => {
                 let s = e.to_string();
                 if s.contains("Cyclic import") {
@@ -356,7 +477,8 @@ fn exec(case: &str) -> String {
         if mode == 'L' && i + 2 < ops.len() {
             steps.push(r.to_string());
         } else {
-            steps.push(format!("{}/{}", r, snapshot(&m, &ms, &rs, &ts)));
+            // the extra queries: after every step (full mode) / after the last step only (`L`: every prefix is its own case)
+            steps.push(format!("{}/{}", r, snapshot(&m, &ms, &rs, &ts, mode != 'L' || i + 1 == ops.len())));
         }
     }
     if steps.is_empty() { "-".into() } else { steps.join(";") }
@@ -499,6 +621,12 @@ fn gen(rng: &mut Rng, n: usize, tier: &str) -> Vec<String> {
                 };
                 ops.push(format!("i:{}:{}:{}:*", me, from, rng.pick(&["AR", "AT"])));
             }
+        }
+        // rules assigned to modules by `;; MODULE:` comments (a second representation of add_rule), incl. a missing module
+        let mut rn = vec!["r1", "r2", "s1"];
+        rng.shuffle(&mut rn);
+        for r in rn.iter().take(rng.below(4) as usize) {
+            ops.push(format!("r:{}:{}", rng.pick(&["A", "B", "C", "MAIN", "D"]), r));
         }
         out.push(ops.join(" "));
     }
